@@ -45,7 +45,7 @@ LEVEL_NOTE = ("Trusted: Coq kernel, extraction, translator harness/translate/c08
               "name clashes and ill-typed expression fields are outside the model (EUnmodelled).")
 MODEL = ("Model.C08_run", "run_C08")
 MODEL_TARGETS = ["Model/C08_run.vo"]
-COQ_TARGETS = ["Proofs/C08_json.vo"]
+COQ_TARGETS = ["Proofs/C08_json.vo", "Proofs/C08_full.vo", "Proofs/C08_text.vo"]
 RULE = ("seeded random packages (imports incl. wildcard and TYPE_CHECKING, __all__, attributes with annotations/values/docstrings, functions with every "
         "parameter kind, annotations, defaults, decorators, overloads, properties, classes with bases/decorators/nested classes/__init__ attributes, "
         "docstring shapes incl. non-idempotent ones, members named kind/cls) loaded by visit with and without resolve_aliases and by forced inspection; "
@@ -70,10 +70,11 @@ class Unabstractable(Exception):
 
 
 def _ascii(s: str) -> str:
+    """a string the model can hold: code points below 256 (the model's strings are sequences of such code points)."""
     if not isinstance(s, str):
         raise Unabstractable(f"not a string: {type(s).__name__}")
-    if any(ord(c) > 126 or (ord(c) < 32 and c not in "\n\t\r\x0b\x0c") for c in s):
-        raise Unabstractable("non-ascii string")
+    if any(ord(c) > 255 for c in s):
+        raise Unabstractable("string with code points above U+00FF")
     return s
 
 
@@ -138,14 +139,32 @@ def abs_param(p, scope):
             [] if p.docstring is None else [abs_doc(p.docstring)]]
 
 
+def abs_fpath(fp):
+    return ["none"] if fp is None else ["list", [_ascii(str(p)) for p in fp]] if isinstance(fp, list) else ["str", _ascii(str(fp))]
+
+
+def root_context(obj, cwd):
+    """where the object to be serialised sits (Model/C08_full.v fctx): parts of the working directory, file path of the
+    top-level package and of the enclosing module (absent for a parentless root), dotted path of the parent."""
+    parent = obj.parent
+    pkg, mod, prefix = [], [], ""
+    if parent is not None:
+        prefix = _ascii(parent.path)
+        try:
+            mod = [abs_fpath(parent.module._filepath)]
+            pkg = [abs_fpath(obj.package._filepath)]
+        except ValueError:
+            pkg, mod = [], []
+    return [[_ascii(x) for x in Path(cwd).parts], pkg, mod, prefix]
+
+
 def abs_tree(obj):
     import griffe
     if isinstance(obj, griffe.Alias):
         return ["alias", _ascii(obj.name), _ascii(obj.target_path), _opt(obj.alias_lineno), _opt(obj.alias_endlineno)]
     scope = obj.parent
     if isinstance(obj, griffe.Module):
-        fp = obj._filepath
-        x = ["module", ["none"] if fp is None else ["list", [_ascii(str(p)) for p in fp]] if isinstance(fp, list) else ["str", _ascii(str(fp))]]
+        x = ["module", abs_fpath(obj._filepath)]
     elif isinstance(obj, griffe.Class):
         x = ["class", [abs_ev(b, scope) for b in obj.bases], [abs_deco(d, scope) for d in obj.decorators]]
     elif isinstance(obj, griffe.Function):
@@ -322,7 +341,7 @@ def link_finding(slot: str, attached: bool, depth: int, old: int, new: int, top_
     return "C08-F8"                      # name below the first layer of the expression
 
 
-def compare_objects(ctx, case, a, b, ta, tb, tm, path, mode_note):
+def compare_objects(ctx, case, a, b, ta, tb, tm, path, mode_note, names=True):
     """Field-by-field equivalence of the original object a and the reloaded b.
     ta/tb: their abstractions, tm: the model's predicted reload of ta (None if the model was not run)."""
     import griffe
@@ -395,7 +414,7 @@ def compare_objects(ctx, case, a, b, ta, tb, tm, path, mode_note):
             la = abs_names(ma_, []) if ma_ is not None else None
             lm = abs_names(mm_, []) if mm_ is not None else None
             prev_fid = None
-            for i, ((n1, d1), (n2, _)) in enumerate(zip(na, nb)):
+            for i, ((n1, d1), (n2, _)) in enumerate(zip(na, nb) if names else ()):
                 c1, c2 = canon(n1), canon(n2)
                 ctx.count("names_compared")
                 if c1 != c2:
@@ -417,7 +436,7 @@ def compare_objects(ctx, case, a, b, ta, tb, tm, path, mode_note):
         return
     for i, (k, ma) in enumerate(a.members.items()):
         compare_objects(ctx, case, ma, b.members[k], None if ta is None else ta[6][i][1], None if tb is None else tb[6][i][1],
-                        None if tm is None else tm[6][i][1], path + [k], mode_note)
+                        None if tm is None else tm[6][i][1], path + [k], mode_note, names)
 
 
 def tree_stats(t, acc):
@@ -518,10 +537,50 @@ def full_info(obj, prefix=""):
     return out
 
 
-def check_tree(ctx, obj, case, modes=(False, True), stream="?"):
-    """All checks for one live module tree."""
+ENC_FINDING = {"BuiltinModuleError": "C08-F4", "ValueError": "C08-F13"}
+
+
+def blank_links(t):
+    """an abstracted expression / slot list with every name's parent link erased (used for the decorators of a root class,
+    which _load_class attaches to the class itself until the class becomes a member of something)."""
+    if isinstance(t, list) and t:
+        if t[0] == "name":
+            return ["name", t[1], 0]
+        return [blank_links(x) for x in t]
+    return t
+
+
+def blank_root_class(t):
+    if t is not None and t[0] == "obj" and t[7][0] == "class":
+        t = list(t)
+        x = list(t[7])
+        x[2] = blank_links(x[2])
+        t[7] = x
+    return t
+
+
+def pick_cwd(ctx, obj):
+    """working directories from which the full form is taken: above the package (relative paths), inside it, unrelated."""
+    import griffe
+    cands = [(os.getcwd(), "harness cwd (above)"), (str(ctx.scratch), "scratch root (above)"), ("/usr", "unrelated")]
+    fp = obj._filepath if isinstance(obj, griffe.Module) else None
+    if isinstance(fp, Path):
+        cands += [(str(fp.parent), "directory of the file"), (str(fp.parent.parent), "parent of that directory")]
+    elif isinstance(fp, list) and fp:
+        cands += [(str(fp[0]), "a namespace portion"), (str(fp[0].parent), "parent of a namespace portion")]
+    cands = [c for c in cands if os.path.isdir(c[0])]
+    return ctx.rng.choice(cands)
+
+
+def check_tree(ctx, obj, case, modes=(False, True), stream="?", parser=False):
+    """All checks for one live tree (a loaded package, or any object of one: `parser` says that its docstrings carry a
+    docstring parser, in which case the parsed sections of the full form are read from the live objects)."""
     import griffe
     ctx.observe("stream", stream)
+    is_root_module = isinstance(obj, griffe.Module)
+    load = type(obj).from_json
+    if not obj.is_alias:
+        alias_features(ctx, obj)
     try:
         ta = abs_tree(obj)
     except Unabstractable as e:
@@ -539,12 +598,15 @@ def check_tree(ctx, obj, case, modes=(False, True), stream="?"):
     if ta is not None:
         for c in expr_classes_in(ta, set()):
             ctx.observe("expr_classes", c)
+        if any(ord(ch) > 126 for ch in json.dumps(ta, ensure_ascii=False)):
+            ctx.observe("tree_features", "latin-1 strings beyond ASCII")
     ctx.case(dict(case, shape=st), bool(st.get("expr") or st.get("docstring")))
     flags = None
+    g_doc = False
     if mres is not None:
-        m_json, m_dec, flags, m_reload = norm_model(mres[0]), mres[1], mres[2], mres[3]
+        m_json, m_dec, flags, m_reload, m_text = norm_model(mres[0]), mres[1], mres[2], mres[3], mres[4]
         rep, g_doc, g_expr, has_doc = flags
-        pg = py_gaps(ta)
+        pg = py_gaps(ta) if ta[0] == "obj" else {"lineno": False, "filepath": False, "memberkey": False, "has_doc": False}
         ctx.observe("model_flags", f"rep={rep} doc={g_doc} expr={g_expr}")
         ctx.observe("tree_features", f"no-lineno={int(pg['lineno'])} filepath-not-str={int(pg['filepath'])} member-kind/cls={int(pg['memberkey'])} docstring={int(pg['has_doc'])}")
         if not rep:
@@ -552,82 +614,143 @@ def check_tree(ctx, obj, case, modes=(False, True), stream="?"):
         # C08_decode_enc_min: every rep tree decodes, in the model
         if rep and m_dec[0] == "err":
             ctx.tie_failure("correspondence", "model: a rep tree does not decode", {"flags": flags, "decode": m_dec[:2]}, case)
+    home = os.getcwd()
     for full in modes:
         mode = "full" if full else "min"
-        # (a) serialisation succeeds and is JSON
+        cwd, label = pick_cwd(ctx, obj) if full else (home, "")
+        if full:
+            ctx.observe("full_cwd", label)
+        os.chdir(cwd)
         try:
-            j = obj.as_json(full=full)
-            json.loads(j)
-        except Exception as e:  # noqa: BLE001
-            known = full and isinstance(e, griffe.BuiltinModuleError) and ta is not None and has_builtin_module(ta)
-            ctx.property_failure(dict(case, mode=mode, step="as_json"), {"exception": exc_tag(e), "message": str(e)[:200]},
-                                 finding="C08-F4" if known else None)
-            ctx.observe("outcome", f"{mode}:encode-raises:{exc_tag(e)}")
-            if full and ta is not None:
-                mf = ctx.model([["full", full_info(obj), norm_abs(ta)]])[0]
-                if mf[0] != "enc-err" or mf[1] != exc_tag(e):
-                    ctx.tie_failure("correspondence", "enc_full(model) vs as_json(full=True) failure", {"model": mf[:2], "impl": exc_tag(e)}, case)
-            continue
-        # (C) encoder
-        if not full and mres is not None:
-            if py_json(j) != m_json:
-                ctx.tie_failure("correspondence", "enc_min(model) vs as_json()", _first_diff(m_json, py_json(j)), case)
-        mf = None
-        if full and ta is not None:
-            mf = ctx.model([["full", full_info(obj), norm_abs(ta)]])[0]
-            if mf[0] != "ok" or norm_model(mf[1]) != py_json(j):
-                ctx.tie_failure("correspondence", "enc_full(model) vs as_json(full=True)",
-                                _first_diff(norm_model(mf[1]), py_json(j)) if mf[0] == "ok" else {"model": mf[:2]}, case)
-                mf = None
-        m_decoded = m_dec if not full else (mf[2] if mf is not None else None)
-        # (b) decoding succeeds
-        try:
-            obj2 = griffe.Module.from_json(j)
-        except Exception as e:  # noqa: BLE001
-            tag = exc_tag(e)
-            ctx.observe("outcome", f"{mode}:decode-raises:{tag}")
-            fid = None        # no known finding makes decoding fail any more
-            if m_decoded is not None and (m_decoded[0] != "err" or m_decoded[1] != tag):
-                ctx.tie_failure("correspondence", f"decode(model) vs Module.from_json ({mode})", {"model": m_decoded[:2], "impl": tag}, case)
-            ctx.property_failure(dict(case, mode=mode, step="from_json"), {"exception": tag, "message": str(e)[:200]}, finding=fid)
-            continue
-        if m_decoded is not None and m_decoded[0] != "tree":
-            ctx.tie_failure("correspondence", f"decode(model) fails but Module.from_json succeeds ({mode})", {"model": m_decoded[:2]}, case)
-            m_decoded = None
-        # (c) identical re-encoding
-        tb = None
-        try:
-            tb = abs_tree(obj2)
-        except Unabstractable:
-            pass
-        if m_decoded is not None and tb is not None and norm_abs(tb) != m_decoded[1]:
-            ctx.tie_failure("correspondence", f"decoded tree (model) vs abstraction of Module.from_json ({mode})",
-                            _first_diff(m_decoded[1], norm_abs(tb)), case)
-        try:
-            j2 = obj2.as_json(full=full)
-        except Exception as e:  # noqa: BLE001
-            ctx.property_failure(dict(case, mode=mode, step="re-encode"), {"exception": exc_tag(e), "message": str(e)[:200]})
-            ctx.observe("outcome", f"{mode}:reencode-raises")
-            continue
-        if j2 != j:
-            predicted = (not full and m_decoded is not None and norm_model(m_decoded[2]) == py_json(j2) and flags is not None and g_doc)
-            if full and flags is not None and g_doc and m_decoded is not None:
-                predicted = json_term_to_py(norm_model(m_decoded[2])) == json.loads(obj2.as_json())
-            ctx.property_failure(dict(case, mode=mode, step="re-encoding differs"), _first_diff(py_json(j), py_json(j2)),
-                                 finding="C08-F6" if predicted else None)
-            ctx.observe("outcome", f"{mode}:reencoding-differs")
-        else:
-            ctx.observe("outcome", f"{mode}:identical")
-            if not full and m_decoded is not None and norm_model(m_decoded[2]) != py_json(j2):
-                ctx.tie_failure("correspondence", "enc_min(decode(enc_min t)) (model) vs re-encoding", {}, case)
-        # (d) field-by-field equivalence and name resolution
-        tm = None
-        if mres is not None and m_reload is not None:
-            tm = m_reload
-            if not full and m_decoded is not None and m_decoded[1] != m_reload:
-                ctx.tie_failure("correspondence", "reload(model) differs from decode(enc_min) (model)", {}, case)
-        compare_objects(ctx, dict(case, mode=mode), obj, obj2, ta, tb, tm, [obj.name], mode)
+            _check_tree_mode(ctx, obj, case, full, mode, cwd, ta, mres, flags, g_doc, load, is_root_module, parser)
+        finally:
+            os.chdir(home)
     return ta, flags
+
+
+def _check_tree_mode(ctx, obj, case, full, mode, cwd, ta, mres, flags, g_doc, load, is_root_module, parser):
+    import griffe
+    if mres is not None:
+        m_json, m_dec, m_reload, m_text = norm_model(mres[0]), mres[1], mres[3], mres[4]
+    else:
+        m_json = m_dec = m_reload = m_text = None
+    derived = full and ta is not None and not parser       # the model computes the derived values itself
+    mf = None
+    if full and ta is not None:
+        mf = ctx.model([["fullD", root_context(obj, cwd), norm_abs(ta)] if derived else ["full", full_info(obj), norm_abs(ta)]])[0]
+        if mf == ["bad-input"]:
+            ctx.tie_failure("harness", "full-mode input rejected by the model's decoder", {}, case)
+            mf = None
+    # (a) serialisation succeeds and is JSON
+    try:
+        j = obj.as_json(full=full)
+        json.loads(j)
+    except Exception as e:  # noqa: BLE001
+        tag = exc_tag(e)
+        known = mf is not None and mf[0] == "enc-err" and mf[1] == tag      # the faithful model fails in the same way
+        ctx.property_failure(dict(case, mode=mode, cwd=cwd, step="as_json"), {"exception": tag, "message": str(e)[:200]},
+                             finding=ENC_FINDING.get(tag) if known else None)
+        ctx.observe("outcome", f"{mode}:encode-raises:{tag}")
+        if mf is not None and not known:
+            ctx.tie_failure("correspondence", "enc_full(model) vs as_json(full=True) failure", {"model": mf[:2], "impl": tag, "cwd": cwd}, case)
+        return
+    # (C) encoder, as a JSON value and as text
+    if not full and mres is not None:
+        if py_json(j) != m_json:
+            ctx.tie_failure("correspondence", "enc_min(model) vs as_json()", _first_diff(m_json, py_json(j)), case)
+        elif m_text != j:
+            ctx.tie_failure("correspondence", "dumps(enc_min t) (model, text) vs as_json()", _first_text_diff(m_text, j), case)
+    if full and mf is not None:
+        if mf[0] != "ok" or norm_model(mf[1]) != py_json(j):
+            ctx.tie_failure("correspondence", "enc_full(model) vs as_json(full=True)",
+                            dict(_first_diff(norm_model(mf[1]), py_json(j)), cwd=cwd) if mf[0] == "ok" else {"model": mf[:2], "cwd": cwd}, case)
+            mf = None
+        elif derived and mf[4] != j:
+            ctx.tie_failure("correspondence", "dumps(enc_full t) (model, text) vs as_json(full=True)", _first_text_diff(mf[4], j), case)
+    m_decoded = m_dec if not full else (mf[2] if mf is not None else None)
+    # (b) decoding succeeds
+    try:
+        obj2 = load(j)
+    except Exception as e:  # noqa: BLE001
+        tag = exc_tag(e)
+        ctx.observe("outcome", f"{mode}:decode-raises:{tag}")
+        if m_decoded is not None and (m_decoded[0] != "err" or m_decoded[1] != tag):
+            ctx.tie_failure("correspondence", f"decode(model) vs from_json ({mode})", {"model": m_decoded[:2], "impl": tag}, case)
+        ctx.property_failure(dict(case, mode=mode, step="from_json"), {"exception": tag, "message": str(e)[:200]}, finding=None)
+        return
+    if m_decoded is not None and m_decoded[0] != "tree":
+        ctx.tie_failure("correspondence", f"decode(model) fails but from_json succeeds ({mode})", {"model": m_decoded[:2]}, case)
+        m_decoded = None
+    # (c) identical re-encoding
+    tb = None
+    try:
+        tb = abs_tree(obj2)
+    except Unabstractable:
+        pass
+    if m_decoded is not None and tb is not None:
+        got, want = norm_abs(tb), m_decoded[1]
+        if not is_root_module:
+            got, want = blank_root_class(got), blank_root_class(want)
+        if got != want:
+            ctx.tie_failure("correspondence", f"decoded tree (model) vs abstraction of from_json ({mode})", _first_diff(want, got), case)
+    if full and (parser or obj.parent is not None):
+        # a docstring parser is not serialised (the parsed sections are re-derived as plain text), and an object dumped
+        # without its parents cannot re-derive its path and file paths: the full form is compared up to here only
+        ctx.observe("outcome", "full:decoded (re-encoding not applicable)")
+        compare_objects(ctx, dict(case, mode=mode), obj, obj2, ta, tb, m_reload, [obj.name], mode, names=is_root_module)
+        return
+    try:
+        j2 = obj2.as_json(full=full)
+    except Exception as e:  # noqa: BLE001
+        ctx.property_failure(dict(case, mode=mode, step="re-encode"), {"exception": exc_tag(e), "message": str(e)[:200]})
+        ctx.observe("outcome", f"{mode}:reencode-raises")
+        return
+    # what the model says the reloaded tree serialises to (exact prediction, as text)
+    if not full:
+        m_again = m_decoded[2] if m_decoded is not None else None
+        predicted = m_again is not None and norm_model(m_again) == py_json(j2)
+    elif derived and mf is not None:
+        m_again = mf[3] if mf[3][0] == "ok" else None
+        predicted = m_again is not None and m_again[2] == j2
+    else:       # parser trees: the parsed sections are not modelled; the minimal form of the reloaded tree is
+        m_again = None
+        predicted = m_decoded is not None and json_term_to_py(norm_model(m_decoded[2])) == json.loads(obj2.as_json())
+    if j2 != j:
+        ctx.property_failure(dict(case, mode=mode, step="re-encoding differs"), _first_diff(py_json(j), py_json(j2)),
+                             finding="C08-F6" if predicted and g_doc else None)
+        ctx.observe("outcome", f"{mode}:reencoding-differs")
+    else:
+        ctx.observe("outcome", f"{mode}:identical")
+        if m_again is not None and not predicted:
+            ctx.tie_failure("correspondence", f"re-encoding of the reloaded tree (model) vs implementation ({mode})", {}, case)
+    # (c') across the modes: the tree reloaded from the minimal document gives the full document of the original
+    if full and not parser:
+        try:
+            jx = load(obj.as_json()).as_json(full=True)
+        except Exception as e:  # noqa: BLE001
+            ctx.property_failure(dict(case, mode="min->full", step="full form of the tree reloaded from the minimal form"), {"exception": exc_tag(e)})
+            jx = None
+        if jx is not None and jx != j:
+            pred = g_doc and derived and mf is not None and mf[3][0] == "ok" and mf[3][2] == jx
+            ctx.property_failure(dict(case, mode="min->full", step="full form of the tree reloaded from the minimal form differs"),
+                                 _first_diff(py_json(j), py_json(jx)), finding="C08-F6" if pred else None)
+            ctx.observe("outcome", "min->full:differs")
+        elif jx is not None:
+            ctx.observe("outcome", "min->full:identical")
+            if g_doc is False and derived and mf is not None and (mf[3][0] != "ok" or mf[3][2] != jx):
+                ctx.tie_failure("correspondence", "enc_full (reload t) (model) vs full form of the tree reloaded from the minimal form", {}, case)
+    # (d) field-by-field equivalence and name resolution
+    tm = None
+    if mres is not None and m_reload is not None:
+        tm = m_reload
+        if not full and m_decoded is not None and m_decoded[1] != m_reload:
+            ctx.tie_failure("correspondence", "reload(model) differs from decode(enc_min) (model)", {}, case)
+    compare_objects(ctx, dict(case, mode=mode), obj, obj2, ta, tb, tm, [obj.name], mode, names=is_root_module)
+
+
+def _first_text_diff(a: str, b: str):
+    i = next((k for k, (x, y) in enumerate(zip(a, b)) if x != y), min(len(a), len(b)))
+    return {"at_char": i, "model": a[max(0, i - 30):i + 40], "impl": b[max(0, i - 30):i + 40]}
 
 
 def _first_diff(a, b, path="$"):
@@ -915,8 +1038,13 @@ def gen_module_source(rng, pkg, is_init, with_findings=True):
             out.append("from .sub import *")
         if rng.random() < 0.3:
             out.append("from ._impl import *")
+        # a private module re-exported under a public name (as `os` does with `os.path`): other modules import *through* this alias
+        out.append("from . import _impl as path")
     else:
         out += ["class Foo: pass", "class Bar(Foo): pass", "def helper(*a, **k): return a", "hh = helper", "sub = None"]
+    if rng.random() < 0.3:
+        # a wildcard import from a distribution that is not on the search paths: the loader keeps a `missing_dist/helpers/*` placeholder alias
+        out.append(rng.choice(["from missing_dist.helpers import *", "from missing_dist import *"]))
     out += ["T = typing.TypeVar('T')", "CONST = 3"]
     if rng.random() < 0.4:
         out += ["if typing.TYPE_CHECKING:", "    from missing import X as guarded"]
@@ -940,6 +1068,27 @@ def gen_module_source(rng, pkg, is_init, with_findings=True):
         out.append("__all__ = [" + ", ".join(repr(n) for n in names[:3]) + "]")
         if is_init and rng.random() < 0.4:
             out.append("__all__ += sub.__all__")
+    return "\n".join(out) + "\n"
+
+
+def gen_chain_source(rng, pkg, namespace):
+    """a module whose imports are alias chains (re-export of a re-export), paths that go through an alias
+    (`from pkg.path import x` where `pkg.path` is an alias of `pkg._impl`), a cycle, an unresolvable target and an
+    unexpandable wildcard: after resolution `target_path` (what the source says) differs from the final target's path."""
+    out = ['"""Re-exports."""', f"from {pkg}.sp import Foo as Foo3", "from .sp import Deep", "from .cyc import loop", "from .cyc import Foo4 as Foo5"]
+    if not namespace:
+        out += [f"from {pkg} import Foo as Foo2", f"from {pkg} import hh as hh2", f"from {pkg}.path import impl_func as through",
+                f"from {pkg}.path import ImplClass", "from . import path as p2", f"import {pkg}.path as p3"]
+    else:
+        out += ["from . import _impl as path", f"from {pkg}.chain import path as p2", f"from {pkg}.chain.path import impl_func as through"]
+    if rng.random() < 0.6:
+        out.append("from missing_dist.helpers import *")
+    if rng.random() < 0.5:
+        out.append("from missing_dist.helpers import slugify as make_slug")
+    out += ["def use(a=through, b: Foo3 = None) -> Deep:", '    """Use."""', "    return a"]
+    if rng.random() < 0.7:
+        # explicitly exported aliases are resolved by `resolve_aliases(implicit=False)` too
+        out.append("__all__ = ['Foo3', 'Deep', 'loop', 'Foo5', 'through', 'p2', 'use'" + ("" if namespace else ", 'Foo2', 'hh2', 'ImplClass', 'p3'") + "]")
     return "\n".join(out) + "\n"
 
 
@@ -970,6 +1119,8 @@ def write_package(ctx, rng, with_findings=True, namespace=False, no_docstrings=F
     files["sub.py"] = gen_module_source(rng, name, False, with_findings) + "__all__ = ['Foo', 'Bar']\n"
     files["_impl.py"] = "def impl_func(a, b=1): return a\nclass ImplClass: pass\n_hidden = 1\n"
     files["sp/__init__.py"] = '"""Sub package."""\nfrom ..sub import Foo\nclass Deep(Foo):\n    """Deep."""\n    def go(self, x: Foo = None) -> "Foo": ...\n'
+    files["chain.py"] = gen_chain_source(rng, name, namespace)
+    files["cyc.py"] = '"""Cyclic re-export."""\nfrom .chain import loop\nfrom .chain import Foo3 as Foo4\n'
     if rng.random() < 0.5:
         files["sp/leaf.py"] = gen_module_source(rng, name, False, with_findings)
     if no_docstrings:
@@ -980,8 +1131,11 @@ def write_package(ctx, rng, with_findings=True, namespace=False, no_docstrings=F
 
 
 # ---- importable content for forced inspection (must execute)
-def gen_inspectable_source(rng, i):
+def gen_inspectable_source(rng, i, raw_annotations=False):
     out = ['"""Inspected module."""', "import typing", "import os", "from typing import List, Optional"]
+    if raw_annotations:
+        # annotation objects whose repr is not a Python expression (C08-F12: generated once the witness no longer reproduces)
+        out += ["class Marker:", "    pass", f"def rawann{i}(a: Marker() = None, *b: Marker()) -> Marker():", "    return a"]
     if rng.random() < 0.5:
         out.append("from os.path import join as pjoin")
     out += ["class Base:", '    """Base."""', "    x: int = 1", f"    def m(self, a: List[int] = None, *b, c={rng.randint(0, 9)}, **d) -> int:", '        """m."""', "        return 1"]
@@ -1176,9 +1330,9 @@ def stream_packages(ctx, n_visit, n_inspect):
         nodoc = i % 6 == 3
         root, name, files = write_package(ctx, ctx.rng, with_findings=with_findings and not nodoc, no_docstrings=nodoc)
         for resolve in ((False, True) if i % 2 == 0 else (False,)):
-            case = {"agent": "visit", "package": name, "resolve_aliases": resolve, "files": files}
+            case = {"agent": "visit", "package": name, "resolve_aliases": resolve, "resolve_implicit": i % 4 == 0, "files": files}
             try:
-                obj = griffe.load(name, search_paths=[str(root)], resolve_aliases=resolve, allow_inspection=False)
+                obj = griffe.load(name, search_paths=[str(root)], resolve_aliases=resolve, resolve_implicit=(i % 4 == 0), allow_inspection=False)
             except Exception as e:  # noqa: BLE001
                 ctx.count("load_failures")
                 ctx.observe("load_failure", type(e).__name__)
@@ -1189,7 +1343,7 @@ def stream_packages(ctx, n_visit, n_inspect):
         name = f"c08insp{_counter[0]}_{os.getpid()}"
         root = ctx.scratch / f"insp{_counter[0]}"
         (root / name).mkdir(parents=True)
-        src = gen_inspectable_source(ctx.rng, i)
+        src = gen_inspectable_source(ctx.rng, i, raw_annotations=not _F12_REPRODUCES[0] and i % 2 == 0)
         (root / name / "__init__.py").write_text(src)
         (root / name / "other.py").write_text("from . import Base\nclass Other(Base):\n    pass\nZ = 1\n")
         case = {"agent": "inspect", "package": name, "files": {"__init__.py": src}}
@@ -1306,9 +1460,217 @@ def stream_damaged(ctx, docs, n):
                             {"damage": what, "diff": diff}, {"document": text[:6000]})
 
 
+# ---- (O) pathlib: the model's pure paths vs PurePosixPath
+def stream_paths(ctx, n):
+    from pathlib import PurePosixPath as PP
+    segs = ["a", "b", "pkg", "src", "..", "x.py", "__init__.py", "a b", "caf\xe9", "ns"]
+
+    def rnd():
+        text = "/".join(ctx.rng.choice(segs) for _ in range(ctx.rng.randint(0, 5)))
+        return str(PP(("/" if ctx.rng.random() < 0.6 else "") + text))
+    cases = []
+    for i in range(n):
+        p = rnd()
+        if i % 2:
+            parts = PP(p).parts
+            base = str(PP(*parts[:ctx.rng.randint(0, len(parts))])) if parts else "."
+        else:
+            base = rnd()
+        cases.append((base, p))
+    cases += [("/", "/"), ("/", "/a"), (".", "a/b"), (".", "."), ("/a", "/a"), ("a", "/a"), ("/a", "a"), ("/a/b", "/a/bc")]
+    outs = ctx.model([["path", b, p] for b, p in cases])
+    for (base, p), mo in zip(cases, outs):
+        ctx.count("path_cases")
+        try:
+            rel = [str(PP(p).relative_to(PP(base)))]
+        except ValueError:
+            rel = []
+        want = [str(PP(p)), rel, str(PP(p).parent), str(PP(p).parent.parent)]
+        ctx.observe("path_relative", "relative" if rel else "not-relative")
+        if mo != want:
+            ctx.tie_failure("oracle", "pure path operations (model) vs pathlib.PurePosixPath", {"base": base, "path": p, "model": mo, "pathlib": want})
+
+
+# ---- (C)/(O) the text level: dumps / loads (model) vs json.dumps / json.loads
+def to_term(v):
+    if v is None:
+        return ["n"]
+    if isinstance(v, bool):
+        return ["b", v]
+    if isinstance(v, int):
+        return ["i", v]
+    if isinstance(v, str):
+        return ["s", _ascii(v)]
+    if isinstance(v, list):
+        return ["a", [to_term(x) for x in v]]
+    if isinstance(v, dict):
+        return ["o", [[_ascii(k), to_term(x)] for k, x in v.items()]]
+    raise Unabstractable(f"json value {type(v).__name__}")
+
+
+def gen_json_value(rng, depth=0):
+    r = rng.random()
+    if depth > 3 or r < 0.45:
+        k = rng.randrange(6)
+        if k == 0:
+            return None
+        if k == 1:
+            return rng.random() < 0.5
+        if k == 2:
+            return rng.choice([0, 1, -1, 7, 10, 42, -305, 1000000007, 2**40, -(2**40), rng.randint(-10**6, 10**6)])
+        n = rng.randint(0, 8)
+        pool = "ab \"\\/\n\t\r\x08\x0c\x00\x1f\x7f\x80\xa0\xe9\xffz{}[]:,u0"
+        return "".join(rng.choice(pool) for _ in range(n))
+    if r < 0.72:
+        return [gen_json_value(rng, depth + 1) for _ in range(rng.randint(0, 4))]
+    return {("k%d" % i if rng.random() < 0.7 else rng.choice(['q"', "\\", "\xe9\n", "", "kind", "cls"]) + str(i)): gen_json_value(rng, depth + 1)
+            for i in range(rng.randint(0, 4))}
+
+
+def damage_text(rng, text):
+    if not text:
+        return text
+    i = rng.randrange(len(text))
+    r = rng.random()
+    pool = '{}[],:"\\ 01-.eEntfu\n\x01'
+    if r < 0.35:
+        return text[:i] + text[i + 1:]
+    if r < 0.7:
+        return text[:i] + rng.choice(pool) + text[i:]
+    if r < 0.9:
+        return text[:i] + rng.choice(pool) + text[i + 1:]
+    return text[:i]
+
+
+def py_loads_outcome(text):
+    try:
+        return ["ok", py_json(text)]
+    except Unabstractable:
+        return ["outside"]            # floats, code points above U+00FF
+    except (json.JSONDecodeError, RecursionError):
+        return ["err"]
+
+
+def stream_text(ctx, n):
+    vals = [gen_json_value(ctx.rng) for _ in range(n)]
+    outs = ctx.model([["dumps", to_term(v)] for v in vals])
+    texts = []
+    for v, mo in zip(vals, outs):
+        ctx.count("dumps_cases")
+        want = json.dumps(v)
+        if mo != want:
+            ctx.tie_failure("correspondence", "dumps(model) vs json.dumps", _first_text_diff(mo, want), {"value": repr(v)[:300]})
+        texts.append(want)
+        k = ctx.rng.randrange(4)
+        texts.append(json.dumps(v, indent=2) if k == 0 else json.dumps(v, separators=(",", ":")) if k == 1
+                     else " \n" + want.replace(", ", " ,\t") + "\r " if k == 2 else json.dumps(v, ensure_ascii=False))
+    texts += ['1.5', '[1e3]', '-0', '[01]', '-', 'NaN', '[-Infinity]', '"\\u00e9\\u0041"', '"\\u20ac"', '"\\ud83d\\ude00"', '{"a":1,"a":2}', '[1,]', '{,}',
+              '{"a" 1}', '{1: 2}', '"a\tb"', '"\\x"', 'nul', 'truefalse', '[] []', '', '  ', '"\\u12"', '[1 2]', '{"a":}', "'a'", '"\x7f"', '1.', '1e', '1e+', '[1.e3]']
+    for _ in range(n):
+        texts.append(damage_text(ctx.rng, ctx.rng.choice(texts[:2 * n])))
+    outs = ctx.model([["loads", t] for t in texts if all(ord(c) < 256 for c in t)])
+    it = iter(outs)
+    for t in texts:
+        if any(ord(c) > 255 for c in t):
+            continue
+        mo = next(it)
+        impl = py_loads_outcome(t)
+        ctx.count("loads_cases")
+        ctx.observe("loads_outcome", impl[0] if impl[0] != "ok" else "ok")
+        if mo == ["unmodelled"]:
+            ctx.observe("loads_outcome", "model:unmodelled")
+            if impl[0] == "err":
+                continue                # the model may stop at a float / a non-Latin-1 escape before CPython finds the error
+            if impl[0] == "ok":
+                ctx.tie_failure("correspondence", "loads(model) says unmodelled, json.loads gives a modelled value", {"text": t[:300]})
+            continue
+        got = [mo[0], norm_model(mo[1])] if mo[0] == "ok" else mo
+        if got != impl and not (impl == ["outside"] and got == ["err"]):
+            ctx.tie_failure("correspondence", "loads(model) vs json.loads", {"text": t[:300], "model": _short(got), "impl": _short(impl)})
+
+
+def stream_text_documents(ctx, docs, n):
+    """documents damaged at the character level: loads + decode (model) vs json.loads(text, object_hook=json_decoder)."""
+    import griffe
+    cases = []
+    for _ in range(n):
+        t = damage_text(ctx.rng, ctx.rng.choice(docs))
+        if ctx.rng.random() < 0.3:
+            t = damage_text(ctx.rng, t)
+        cases.append(t)
+    outs = ctx.model([["loads-decode", t] for t in cases])
+    for t, mo in zip(cases, outs):
+        ctx.observe("stream", "damaged-text")
+        ctx.case({"damaged_text_len": len(t)}, False)
+        try:
+            v = json.loads(t, object_hook=griffe.json_decoder)
+            if isinstance(v, (griffe.Object, griffe.Alias)):
+                impl = ["tree", py_json(v.as_json())]
+            elif isinstance(v, griffe.Expr):
+                impl = ["expr", py_json(json.dumps(v, cls=griffe.JSONEncoder))]
+            elif isinstance(v, griffe.Parameter):
+                impl = ["param", py_json(json.dumps(v, cls=griffe.JSONEncoder))]
+            else:
+                impl = ["plain"]
+        except json.JSONDecodeError:
+            impl = ["json-error"]
+        except Exception as e:  # noqa: BLE001
+            impl = ["err", exc_tag(e)]
+        if mo[0] == "err" and mo[1] == "unmodelled":
+            ctx.observe("damaged_text_outcome", "unmodelled")
+            continue
+        model = [mo[0], mo[1]] if mo[0] == "err" else (["json-error"] if mo[0] == "json-error" else [mo[0], norm_model(mo[2])] if mo[0] != "plain" else ["plain"])
+        ctx.observe("damaged_text_outcome", impl[0] + (":" + impl[1] if impl[0] == "err" else ""))
+        if model != impl:
+            ctx.tie_failure("correspondence", "loads+decode (model) vs json.loads(object_hook=json_decoder) on a damaged text",
+                            {"model": _short(model), "impl": _short(impl)}, {"text": t[:6000]})
+
+
+# ---- objects other than a loaded package as the root of a dump
+def stream_subobjects(ctx, n_packages, per_package):
+    import griffe
+    for i in range(n_packages):
+        root, name, files = write_package(ctx, ctx.rng, with_findings=bool(i % 2))
+        try:
+            pkg = griffe.load(name, search_paths=[str(root)], resolve_aliases=bool(i % 2), allow_inspection=False)
+        except Exception:  # noqa: BLE001
+            ctx.count("load_failures")
+            continue
+        found = []
+
+        def walk(o, path):
+            for k, m in o.members.items():
+                found.append((path + [k], m))
+                if not m.is_alias:
+                    walk(m, path + [k])
+        walk(pkg, [])
+        ctx.rng.shuffle(found)
+        seen = {}
+        for path, m in found:
+            kind = "alias" if m.is_alias else m.kind.value
+            if seen.get(kind, 0) >= max(1, per_package // 4):
+                continue
+            seen[kind] = seen.get(kind, 0) + 1
+            check_tree(ctx, m, {"agent": "visit", "package": name, "resolve_aliases": bool(i % 2), "root": ".".join(path), "files": files},
+                       stream="sub-object/" + kind)
+
+
+# ---- trees loaded with a docstring parser (the parsed sections of the full form are parameters of the model)
+def stream_parser(ctx, n):
+    import griffe
+    for i in range(n):
+        root, name, files = write_package(ctx, ctx.rng, with_findings=False)
+        try:
+            obj = griffe.load(name, search_paths=[str(root)], allow_inspection=False, docstring_parser=ctx.rng.choice(["google", "numpy", "sphinx"]))
+        except Exception:  # noqa: BLE001
+            ctx.count("load_failures")
+            continue
+        check_tree(ctx, obj, {"agent": "visit", "package": name, "docstring_parser": True, "files": files}, modes=(True,), stream="docstring-parser", parser=True)
+
+
 # ---- (O) cleandoc
 def stream_clean(ctx, n):
-    alphabet = ["a", "b", " ", " ", "  ", "\n", "\n", "\t", "    ", "x y", "\n\n", " \n", "\r", "\x0c", ":"]
+    alphabet = ["a", "b", " ", " ", "  ", "\n", "\n", "\t", "    ", "x y", "\n\n", " \n", "\r", "\x0c", ":", "\xa0", "\x85", "\xe9", "\x1c", "\x0b"]
     vals = ["", "\n", "  a\nb", "a\n  b\n   c", "\n    a\n  b", "\ta\n\tb", "a\n\n\n", "\n\n  x\n\n  y\n \n", " \t x", "a\n \tb\n\t c"]
     for _ in range(n):
         vals.append("".join(ctx.rng.choice(alphabet) for _ in range(ctx.rng.randint(0, 12))))
@@ -1336,17 +1698,107 @@ CLI_PLAN = [   # (designation, full, per-package output file?, packages, resolve
 ]
 
 
-def check_cli(ctx, n):
+def outline(obj, found=None):
+    """path -> (kind, alias target) of every member of a tree, recursively (what a consumer of a dump sees of its structure)."""
+    found = {} if found is None else found
+    for name, member in obj.members.items():
+        if member.is_alias:
+            found[f"{obj.path}.{name}"] = ("alias", member.target_path)
+        else:
+            found[f"{obj.path}.{name}"] = (member.kind.value, None)
+            outline(member, found)
+    return found
+
+
+def alias_features(ctx, obj):
+    """input distribution: which alias situations a tree contains (resolved chains, paths through aliases, placeholders)."""
+    import griffe
+    for name, member in obj.members.items():
+        if not member.is_alias:
+            alias_features(ctx, member)
+            continue
+        if member.wildcard:
+            ctx.observe("alias_kinds", "unexpanded-wildcard-placeholder")
+            continue
+        if not member.resolved:
+            ctx.observe("alias_kinds", "unresolved")
+            continue
+        try:
+            final = member.final_target.path
+        except griffe.CyclicAliasError:
+            ctx.observe("alias_kinds", "resolved/cyclic")
+            continue
+        except griffe.AliasResolutionError:
+            ctx.observe("alias_kinds", "resolved/chain-dangling")
+            continue
+        through = False
+        if "." in member.target_path:
+            try:
+                through = obj.package.modules_collection.get_member(member.target_path.rsplit(".", 1)[0]).is_alias
+            except Exception:  # noqa: BLE001
+                through = False
+        if final == member.target_path:
+            ctx.observe("alias_kinds", "resolved/direct")
+        elif through:
+            ctx.observe("alias_kinds", "resolved/path-through-alias (final target path differs)")
+        else:
+            ctx.observe("alias_kinds", "resolved/chain (final target path differs)")
+
+
+def _cli_expected(ctx, root, names, resolve, full, case, emitted, texts):
+    """what `griffe dump` must have emitted: the serialisation of the tree that the same loader options give."""
+    import griffe
+    cwd = os.getcwd()
+    os.chdir(ctx.scratch)       # relative_filepath depends on the working directory
+    try:
+        loader = griffe.GriffeLoader(search_paths=[str(root)], allow_inspection=False)
+        for nm in names:
+            loader.load(nm)
+        if resolve:
+            loader.resolve_aliases(implicit=False, external=None)
+        for nm in names:
+            pkg = loader.modules_collection.members[nm]
+            alias_features(ctx, pkg)
+            want = json.loads(pkg.as_json(full=full))
+            if emitted[nm] != want:
+                ctx.property_failure(dict(case, package=nm, step="content"), {"difference": _first_py_diff(want, emitted[nm])})
+                ctx.observe("outcome", "cli:differs")
+                continue
+            ctx.observe("outcome", "cli:identical")
+            if nm in texts and texts[nm] != pkg.as_json(indent=2, full=full, sort_keys=True) + "\n":
+                ctx.property_failure(dict(case, package=nm, step="text of the per-package file"), {"expected": "as_json(indent=2, sort_keys=True) + newline"})
+            # what is loaded back from the command's output is the loaded tree: same members, kinds and alias targets,
+            # and it serialises to the very document the command emitted
+            try:
+                back = griffe.Module.from_json(json.dumps(emitted[nm]))
+            except Exception as e:  # noqa: BLE001
+                ctx.property_failure(dict(case, package=nm, step="from_json of the command's output"), {"exception": exc_tag(e)})
+                continue
+            if outline(back) != outline(pkg):
+                diff = sorted(set(outline(pkg).items()) ^ set(outline(back).items()))[:6]
+                ctx.property_failure(dict(case, package=nm, step="tree reloaded from the command's output"), {"outline difference": diff})
+    finally:
+        os.chdir(cwd)
+
+
+def check_cli(ctx, n, n_inproc):
     """`griffe dump` emits exactly {package: as_dict} for each requested package, however the package is designated
     (bare name, relative path, absolute path, dotted submodule), in both modes, on stdout / -o file / -o '{package}' template,
-    and exits with status 0."""
+    and exits with status 0.  n invocations of the command in a subprocess, n_inproc calls of its entry points
+    (`griffe.main(["dump", ...])`, `griffe.dump(...)`) in this process."""
+    import contextlib
+    import io
     import itertools
     import griffe
     env = dict(os.environ, PYTHONPATH=str(REPO / "src"), PYTHONHASHSEED="0")
     plan = CLI_PLAN[:n] if n <= len(CLI_PLAN) else CLI_PLAN + [
         (d, f, o, 1, False) for d, f, o in itertools.product(("name", "relpath", "abspath", "submodule"), (False, True), (False, True))][:n - len(CLI_PLAN)]
-    for i, (desig, full, per_package, npk, resolve) in enumerate(plan):
-        root, name, files = write_package(ctx, ctx.rng, with_findings=bool(i % 2))
+    plan = [("subprocess",) + p for p in plan]
+    for i in range(n_inproc):
+        plan.append((ctx.rng.choice(["main", "dump"]), ctx.rng.choice(["name", "name", "abspath", "submodule"]), bool(i % 2),
+                     ctx.rng.random() < 0.4, 2 if i % 5 == 4 else 1, i % 3 == 2))
+    for i, (how, desig, full, per_package, npk, resolve) in enumerate(plan):
+        root, name, files = write_package(ctx, ctx.rng, with_findings=bool(i % 2), namespace=(how != "subprocess" and i % 7 == 3))
         names = [name]
         all_files = {name: files}
         if npk == 2:
@@ -1359,55 +1811,57 @@ def check_cli(ctx, n):
                "submodule": lambda nm: nm + ".sub"}[desig]
         outdir = ctx.scratch / f"cliout{i}"
         outdir.mkdir()
+        to_file = per_package or i % 3 == 1 or npk == 2
+        out_arg = str(outdir / "{package}.json") if per_package else str(outdir / "all.json")
         cmd = [sys.executable, "-m", "griffe", "dump"] + [arg(nm) for nm in names] + ["-s", str(root), "-X", "-LCRITICAL"]
-        cmd += (["-f"] if full else []) + (["-r"] if resolve else [])
-        if per_package:
-            cmd += ["-o", str(outdir / "{package}.json")]
-        elif i % 3 == 1 or npk == 2:
-            cmd += ["-o", str(outdir / "all.json")]
-        p = subprocess.run(cmd, capture_output=True, text=True, env=env, cwd=str(ctx.scratch), timeout=120)
-        case = {"cli": " ".join(cmd[2:]), "designation": desig, "full": full, "per_package_output": per_package, "files": all_files[name]}
-        ctx.case({"cli": cmd[3:], "full": full}, True)
-        ctx.observe("stream", "cli")
-        ctx.observe("cli_form", f"{desig}/{'full' if full else 'min'}/{'per-package' if per_package else 'file' if '-o' in cmd else 'stdout'}")
-        if p.returncode != 0:
-            ctx.property_failure(dict(case, step="exit status"), {"returncode": p.returncode, "stdout": p.stdout[:200], "stderr": p.stderr[-400:]})
+        cmd += (["-f"] if full else []) + (["-r"] if resolve else []) + (["-o", out_arg] if to_file else [])
+        case = {"cli": " ".join(cmd[2:]), "entry": how, "designation": desig, "full": full, "per_package_output": per_package, "files": all_files[name]}
+        stdout, stderr, rc = "", "", None
+        if how == "subprocess":
+            p = subprocess.run(cmd, capture_output=True, text=True, env=env, cwd=str(ctx.scratch), timeout=120)
+            stdout, stderr, rc = p.stdout, p.stderr, p.returncode
+        else:
+            buf = io.StringIO()
+            cwd = os.getcwd()
+            os.chdir(ctx.scratch)
+            try:
+                if how == "main":
+                    with contextlib.redirect_stdout(buf):
+                        rc = griffe.main(cmd[3:])
+                else:
+                    rc = griffe.dump([arg(nm) for nm in names], output=(out_arg if to_file else buf), full=full, resolve_aliases=resolve,
+                                     search_paths=[str(root)], allow_inspection=False)
+            except (Exception, SystemExit) as e:  # noqa: BLE001
+                rc, stderr = f"raised {type(e).__name__}", str(e)[:300]
+            finally:
+                os.chdir(cwd)
+            stdout = buf.getvalue()
+        ctx.case({"cli": cmd[3:], "full": full, "entry": how}, True)
+        ctx.observe("stream", "cli" if how == "subprocess" else "cli-in-process")
+        ctx.observe("cli_form", f"{how}/{desig}/{'full' if full else 'min'}/{'per-package' if per_package else 'file' if to_file else 'stdout'}")
+        if rc != 0:
+            ctx.property_failure(dict(case, step="exit status"), {"returncode": rc, "stdout": stdout[:200], "stderr": stderr[-400:]})
             ctx.observe("outcome", "cli:nonzero-exit")
-        emitted = {}
+        emitted, texts = {}, {}
         try:
             if per_package:
                 for nm in names:
                     f = outdir / f"{nm}.json"
                     if f.exists():
-                        emitted[nm] = json.loads(f.read_text())
-            elif "-o" in cmd:
+                        texts[nm] = f.read_text()
+                        emitted[nm] = json.loads(texts[nm])
+            elif to_file:
                 emitted = json.loads((outdir / "all.json").read_text())
             else:
-                emitted = json.loads(p.stdout)
+                emitted = json.loads(stdout)
         except Exception as e:  # noqa: BLE001
-            ctx.property_failure(dict(case, step="output is not JSON"), {"error": str(e)[:200], "stdout": p.stdout[:200]})
+            ctx.property_failure(dict(case, step="output is not JSON"), {"error": str(e)[:200], "stdout": stdout[:200]})
             continue
         if sorted(emitted) != sorted(names):
-            ctx.property_failure(dict(case, step="emitted packages"), {"emitted": sorted(emitted), "requested": sorted(names), "returncode": p.returncode})
+            ctx.property_failure(dict(case, step="emitted packages"), {"emitted": sorted(emitted), "requested": sorted(names), "returncode": rc})
             ctx.observe("outcome", "cli:wrong-packages")
             continue
-        cwd = os.getcwd()
-        os.chdir(ctx.scratch)       # relative_filepath depends on the working directory
-        try:
-            loader = griffe.GriffeLoader(search_paths=[str(root)], allow_inspection=False)
-            for nm in names:
-                loader.load(nm)
-            if resolve:
-                loader.resolve_aliases(implicit=False, external=None)
-            for nm in names:
-                want = json.loads(loader.modules_collection.members[nm].as_json(full=full))
-                if emitted[nm] != want:
-                    ctx.property_failure(dict(case, package=nm, step="content"), {"difference": _first_py_diff(want, emitted[nm])})
-                    ctx.observe("outcome", "cli:differs")
-                else:
-                    ctx.observe("outcome", "cli:identical")
-        finally:
-            os.chdir(cwd)
+        _cli_expected(ctx, root, names, resolve, full, case, emitted, texts)
 
 
 def _first_py_diff(a, b, path="$"):
@@ -1473,10 +1927,43 @@ def fixed_cases(ctx):
             ctx.property_failure({"fixed_case": what}, {"old": str(mod._filepath), "new": str(r[1]._filepath)})
 
 
+_F12_REPRODUCES = [True]
+
+
+def load_inspected(ctx, name, src):
+    """dynamic analysis of a one-file package written to the scratch directory."""
+    import griffe
+    root = ctx.scratch / f"w_{name}"
+    (root / name).mkdir(parents=True, exist_ok=True)
+    (root / name / "__init__.py").write_text(src, encoding="utf-8")
+    sys.path.insert(0, str(root))
+    try:
+        return griffe.load(name, search_paths=[str(root)], force_inspection=True)
+    finally:
+        sys.path.remove(str(root))
+        for k in [k for k in sys.modules if k == name or k.startswith(name + ".")]:
+            del sys.modules[k]
+
+
 def witnesses(ctx):
     import griffe
     V = lambda code: griffe.visit("w", filepath=Path("/x/w.py"), code=code)
     ctx.witness("C08-F4", _rt(griffe.Module("w", filepath=None), full=True) == ("enc", "BuiltinModuleError"))
+    # F12: an inspected annotation object whose repr is not Python is stored as the object itself: as_json raises TypeError
+    mod = load_inspected(ctx, f"c08raw_{os.getpid()}", "class Marker:\n    pass\ndef f(a: Marker() = None) -> Marker():\n    return a\n")
+    ann = mod.members["f"].parameters["a"].annotation
+    r12 = _rt(mod)
+    _F12_REPRODUCES[0] = (not isinstance(ann, (str, griffe.Expr))) and r12 == ("enc", "TypeError")
+    ctx.witness("C08-F12", _F12_REPRODUCES[0])
+    if not _F12_REPRODUCES[0] and r12[0] != "same":
+        ctx.property_failure({"fixed_case": "F12 inspected annotation object without a Python repr", "mode": "min"}, {"outcome": r12[0]})
+    # F13: the full form of a namespace package none of whose directories lies below the working directory
+    home = os.getcwd()
+    os.chdir("/usr")
+    try:
+        ctx.witness("C08-F13", _rt(griffe.Module("w", filepath=[Path("/x/ns/w")]), full=True) == ("enc", "ValueError"))
+    finally:
+        os.chdir(home)
     r = _rt(V('"""\n    Deep first line.\nRest.\n"""\n'))
     r2 = _rt(V('"""\nFirst line.\n    Rest, deeper.\n  Tail.\n"""\n'))
     ctx.witness("C08-F6", r[0] == "diff" and r[1].docstring.value == "Deep first line.\nRest."
@@ -1503,17 +1990,22 @@ def explore(ctx):
     witnesses(ctx)
     fixed_cases(ctx)
     stream_clean(ctx, ctx.budget(400, 4000))
+    stream_paths(ctx, ctx.budget(400, 4000))
+    stream_text(ctx, ctx.budget(400, 4000))
     stream_expressions(ctx, ctx.budget(1500, 12000))
     stream_hand(ctx, ctx.budget(40, 300))
     stream_special(ctx)
     stream_packages(ctx, ctx.budget(72, 500), ctx.budget(6, 30))
+    stream_subobjects(ctx, ctx.budget(4, 30), 12)
+    stream_parser(ctx, ctx.budget(2, 12))
     # documents for the damaged stream: clean trees only (they decode)
     import griffe
     docs = []
     for i in range(6):
         docs.append(build_clean_doc(ctx.rng, i))
     stream_damaged(ctx, docs, ctx.budget(800, 8000))
-    check_cli(ctx, ctx.budget(6, 24))
+    stream_text_documents(ctx, docs, ctx.budget(300, 3000))
+    check_cli(ctx, ctx.budget(6, 24), ctx.budget(18, 120))
     # every expression dataclass of the (regenerated) table must have been exercised: the model's rule for
     # `iterate(flat=False)` is generic, a class the generators never produce would go unvalidated
     table = {n for n in dir(griffe) if n.startswith("Expr") and n != "Expr" and isinstance(getattr(griffe, n), type)}
@@ -1606,7 +2098,8 @@ def replay(ctx, data):
             p = root / case["package"] / f
             p.parent.mkdir(parents=True, exist_ok=True)
             p.write_text(text)
-        obj = griffe.load(case["package"], search_paths=[str(root)], resolve_aliases=bool(case.get("resolve_aliases")), allow_inspection=False)
+        obj = griffe.load(case["package"], search_paths=[str(root)], resolve_aliases=bool(case.get("resolve_aliases")),
+                          resolve_implicit=bool(case.get("resolve_implicit")), allow_inspection=False)
         for full in (False, True):
             r = _rt(obj, full)
             print("full" if full else "min", "->", r[0], r[1] if r[0] in ("enc", "dec") else "")
